@@ -16,7 +16,7 @@ def jobs(tier):
     J = []
     fam_q = [("y", 8), ("n", 10), ("q", 10), ("b", 12), ("i", 12), ("u", 12), ("h", 12), ("x", 16), ("t", 16), ("d", 16), ("s", 12), ("o", 12), ("g", 8),
              ("yu", 12), ("us", 12), ("aty", 9), ("a(yy)q", 10), ("ay", 12), ("an", 12), ("au", 12), ("at", 16), ("(yu)", 12), ("(sy)", 12)]
-    fam_t = [("as", 10), ("ao", 10), ("a{ys}", 10), ("a(yy)", 10), ("aay", 10), ("ah", 12), ("(yh)", 12), ("su", 16)]
+    fam_t = [("a(yy)", 10), ("ah", 12), ("(yh)", 12), ("su", 16)]   # as / ao / a{ys} / aay: no verdict at N=7..10 within 16 GB (arrays of variable-size elements through the reference decoder)
     for fam, tiers in ((fam_q, ("quick", "thorough")), (fam_t, ("thorough",))):
         for sig, n in fam:
             J.append(Job(name=f"b.byteswap.{sig}.N{n}", group="C02.b", harness="harness/C02_byteswap.c", defines={"SIG": '"' + sig + '"', "N": n}, real=REAL, env=ENV,
